@@ -198,7 +198,7 @@ def r3_walkers(res, facts):
         n = c['toName'].split('::')[-1]
         if n in WALK and 'Xalan' in c['toName']:
             fr = facts.F.get(c['from'])
-            if not fr or DOM_IMPL.search(fr['loc']) or '/verif/' in fr['loc']:
+            if not fr or DOM_IMPL.search(fr['loc']) or common.FIXTURE_PREFIX in fr['loc']:
                 continue
             w[c['from']].add(n)
     for k in sorted(w, key=lambda k: facts.sig(k)):
